@@ -218,6 +218,8 @@ def run(chk):
             cache["r"] = oracle(chk)
         return cache["r"]
 
+    chk.default_found = found
+
     for cls in PARAMS:
         try:
             check_class(chk, ex, cls, found)
